@@ -136,10 +136,29 @@ def run(ctx):
                 cases.append(("%d %s*?" % (s0, b), sorted([s0] + reach(g, [s0], False)), g, "optstar/" + st))
                 cases.append(("%d %s?*" % (s0, b), reach(g, [s0], False), g, "optstar/" + st))
                 cases.append(("%d %s?+" % (s0, b), reach(g, [s0], False), g, "optplus/" + st))
+            # the node below k other values that the body carries along unchanged (stacks up to 7 deep:
+            # equality of stacks must look at every slot), and the node carried inside a closure value
+            # (two instances of one block with different captured values are different stacks)
+            if st == "alt" and (not quick or gi % 2 == 0 or gi >= len(G) - len(big)):
+                sb = "(%s)" % ", ".join("?(N %d ?eq) %d" % (a, c) for a in sorted(g) for c in g[a]) if any(g.values()) else "?(1 2 ?eq)"
+                for k in (1, 3, 4, 5, 6):
+                    names = " ".join("J%d" % j for j in range(k))
+                    junk = " ".join(str(100 + j) for j in range(k))
+                    deep = "(|N %s| %s %s)" % (names, sb, names)
+                    for s0 in range(min(n, 2)):
+                        cases.append(("[%d %s %s* (|N %s| N)] elem" % (s0, junk, deep, names), reach(g, [s0], False), g, "deep%d/star" % k))
+                        cases.append(("[%d %s %s+ (|N %s| N)] elem" % (s0, junk, deep, names), reach(g, [s0], True), g, "deep%d/plus" % k))
             # nested closure: (E*)* reaches the same set
             cases.append(("0 (%s*)*" % b, reach(g, [0], False), g, "nested/" + st))
             cases.append(("0 (%s+)*" % b, reach(g, [0], False), g, "nested/" + st))
             cases.append(("0 (%s*)+" % b, reach(g, [0], False), g, "nested/" + st))
+    # the node carried inside a closure value, on graphs without cycles or confluence (equality of
+    # closures is outside the documented order: only "different captured values = different stacks" is used)
+    for g in ({0: [1], 1: [2], 2: [3], 3: []}, {0: [1, 2], 1: [3], 2: [4], 3: [], 4: []}, {0: [1], 1: [2, 3], 2: [], 3: [4], 4: []}):
+        sb = "(%s)" % ", ".join("?(N %d ?eq) %d" % (a, c) for a in sorted(g) for c in g[a])
+        cases.append(("[0 (|M| {M}) (apply (|N| %s) (|M| {M}))* apply] elem" % sb, reach(g, [0], False), g, "closure-carrier/star"))
+        cases.append(("[0 (|M| {M}) (apply (|N| %s) (|M| {M}))+ apply] elem" % sb, reach(g, [0], True), g, "closure-carrier/plus"))
+        cases.append(("let Z := 0; [{Z} (apply (|N| %s) (|M| {M}))* apply] elem" % sb, reach(g, [0], False), g, "closure-carrier/let"))
     qs = list(dict.fromkeys(c[0] for c in cases))
     runs = zw.run_cases([zw.enc(q, t=3, max=400) for q in qs])
     res = {q: engine.canon_impl(r) for q, r in zip(qs, runs)}
@@ -181,7 +200,7 @@ def run(ctx):
     ctx.cov.update({
         "evaluations": evaluations + stats["evaluations"],
         "distinct_nontrivial": len(nontrivial),
-        "rule": "closure bodies generated from graphs (%d graphs: %s 3-node graphs with out-degree <= 2, plus 5-cycle, diamond chain, tree with back edges, self-loop, 2-cycle) in five encodings (`,` in the body, captured sequence + elem, let, if-chain, `||`), every start node, `*` and `+`, several inputs in a row, E E* vs E+, E? vs (E,), stacked postfix operators (E+?, (E+,), E*?, E?*, E?+), nesting ((E*)*, (E+)*, (E*)+); expected = reachability computed on the graph, each node exactly once per input; non-trivial = >= 3 reachable nodes and a multi-successor node; 3 s budget per query; programs also compared with the engine model and the specification" % (len(G), "all" if not quick else "a sample of"),
+        "rule": "closure bodies generated from graphs (%d graphs: %s 3-node graphs with out-degree <= 2, plus 5-cycle, diamond chain, tree with back edges, self-loop, 2-cycle) in five encodings (`,` in the body, captured sequence + elem, let, if-chain, `||`), every start node, `*` and `+`, several inputs in a row, E E* vs E+, E? vs (E,), stacked postfix operators (E+?, (E+,), E*?, E?*, E?+), the node carried below 1-6 other values, or (acyclic graphs) inside a closure value, nesting ((E*)*, (E+)*, (E*)+); expected = reachability computed on the graph, each node exactly once per input; non-trivial = >= 3 reachable nodes and a multi-successor node; 3 s budget per query; programs also compared with the engine model and the specification" % (len(G), "all" if not quick else "a sample of"),
         "samples": [cases[0][0], cases[7][0], cases[-1][0]],
         "groups": dict(kinds), "violations_found": viol,
         "traces_validated_against_impl": stats["evaluations"],
